@@ -181,7 +181,13 @@ func streamEngine(seed uint64, n int, driver, corpus, dump, variant string) (*Su
 	for i, c := range cases {
 		sum.Evaluations++
 		implLine := impls[i].Sx(c.ID).String()
-		modelLine := models[i]
+		// the driver prints the engine result (mechanism model under the regenerated facts) and the
+		// spec result (reference semantics), tab-separated
+		parts := strings.SplitN(models[i], "\t", 2)
+		engineLine, modelLine := parts[0], parts[0]
+		if len(parts) == 2 {
+			modelLine = parts[1]
+		}
 		iv, err := parseRes(implLine)
 		if err != nil {
 			return nil, err
@@ -223,8 +229,14 @@ func streamEngine(seed uint64, n int, driver, corpus, dump, variant string) (*Su
 		if len(sum.Samples) < 3 && nodes >= 3 {
 			sum.Samples = append(sum.Samples, lines[i]+" => "+implLine)
 		}
-		if implLine != modelLine {
+		if implLine != engineLine {
 			sum.FullLineMismatches++
+			if len(sum.Mismatches["engine-model"]) < 3 {
+				sum.Mismatches["engine-model"] = append(sum.Mismatches["engine-model"], Mismatch{Case: lines[i], Impl: implLine, Model: engineLine, What: "full result line differs from the mechanism model"})
+			}
+		}
+		if engineLine != modelLine {
+			sum.Hist["engine_differs_from_spec"]++
 		}
 		for _, prop := range engineProps {
 			ip, mp := iv.project(prop), mv.project(prop)
